@@ -272,7 +272,9 @@ func c07InitErrorOfCurrentGen(w *World, e *Engine, inv *Invocation, body []byte)
 			continue
 		}
 		for _, c := range a.Calls {
-			if c.Tag == "rt-initerror" && c.Done && c.Status == 202 && bytes.Equal(c.ReqBody, body) {
+			// (accepted - or submitted in full by a runtime that died before it could read the verdict: the emulator may
+			// well have processed it)
+			if c.Tag == "rt-initerror" && c.Done && (c.Status == 202 || c.Err != nil && !a.P.Alive) && bytes.Equal(c.ReqBody, body) {
 				// accepted from a generation that was alive during this invocation
 				if a.P.Gen == gen || (a.P.DeathStep >= inv.ArrivalStep && a.P.ExecStep <= inv.Call.EndStep) || a.P.Alive {
 					return true
